@@ -39,13 +39,16 @@ def k1(run, tu):
     run.need(len(gotos) >= 2, '%s: expected several `goto error`' % fn)
     # (i) error bytes first
     size_conds = [n for n in g.nodes if n.id in region and n.kind == 'cond' and cx.render(n.ast).endswith('->ct_size > 0')]
+    # the first of them (a later one guards the second copy, after a failed conversion of what onerror returned)
+    size_conds = [n for n in size_conds if all(o.id in g.reach([n.id]) for o in size_conds)]
     ok = len(size_conds) == 1
     mc = None
     if ok:
         sc = size_conds[0]
         ok = g.must_follow(e.id, [sc.id]) and e.id in [p for p, _l in sc.pred] or g.must_follow(e.id, [sc.id])
         tnodes = [t for t, l in sc.succ if l == 'T']
-        mcs = [n for n in g.nodes if n.id in g.reach(tnodes) and n.ast is not None and cx.calls_in(n.ast, 'memcpy')]
+        users0 = {n.id for n in g.nodes if n.ast is not None and cx.calls_in(n.ast, 'PyObject_CallFunctionObjArgs')}
+        mcs = [n for n in g.nodes if n.id in g.reach(tnodes, avoid=users0) and n.ast is not None and cx.calls_in(n.ast, 'memcpy')]
         ok = ok and len(mcs) == 1
         if ok:
             mc = mcs[0]
@@ -285,6 +288,54 @@ def k5_k6(run, tu):
         run.ob('K6/gil-ensure-release-paired-around-the-call', fn2, 'state = gil_ensure(); ...; gil_release(state)', ok, tu.where(tu.func(fn2)))
 
 
+def k7(run, tu):
+    """the caller receives the declared error value whenever a result conversion fails -- also the conversion of what `onerror`
+    returned, which may already have overwritten the buffer -- and a struct/union result is zeroed before a (possibly partial)
+    initialiser is converted into it"""
+    fn = 'general_invoke_callback'
+    g = cfg_of(tu, fn)
+    convs = [n for n in g.nodes if n.ast is not None and cx.calls_in(n.ast, 'convert_from_object_fficallback')]
+    run.need(len(convs) >= 2, '%s: the two result conversions (normal and onerror) not found' % fn)
+
+    def is_errcopy(n):
+        for c in cx.calls_in(n.ast, ('memcpy', '__builtin_memcpy', '__builtin___memcpy_chk')) if n.ast is not None else []:
+            a = [cx.render(x) for x in cx.call_args(c)]
+            if a and a[0] == 'result' and 'py_rawerr' in a[1]:
+                return True
+        return False
+    copies = [n.id for n in g.nodes if is_errcopy(n)]
+    run.need(copies, '%s: the copy of the declared error value into the result not found' % fn)
+    for n in convs:
+        fails = [t for t, l in n.succ if l == 'T'] if n.kind == 'cond' and cx.render(n.ast).replace(' ', '').endswith('<0') else None
+        if fails is None:
+            ok, why = False, 'the outcome of this conversion is ignored: if it fails after having cleared the result buffer, the caller receives 0, not the declared error value'
+        else:
+            # from the failing edge, the exit is reached only through a copy of the error value, or through a test that the result has no size
+            r = g.reach(fails, avoid=set(copies))
+            nosize = {x.id for x in g.nodes if x.kind == 'cond' and cx.render(x.ast).replace(' ', '').endswith('->ct_size>0')}
+            leak = g.exit.id in g.reach(fails, avoid=set(copies) | nosize)
+            ok, why = not leak, 'a failed conversion reaches the end of the function without the declared error value being copied into the result'
+        run.ob('K7/failed-result-conversion-leaves-the-declared-error-value', fn, stmt_text(n.ast)[:90] if n.kind != 'cond' else cx.render(n.ast)[:90], ok, tu.where(n.ast), why)
+    # aggregate results are zeroed before conversion
+    F = 'convert_from_object_fficallback'
+    fg = cfg_of(tu, F)
+    flags = rules.macro_flags(tu, 'CT_')
+    for kind in ('CT_STRUCT', 'CT_UNION'):
+        for size in (4, 12, 24):
+            seq = []
+            env = {'ctype->ct_flags': absint.Con(flags[kind], 32, True), 'ctype->ct_size': absint.Con(size, 64, True)}
+            hooks = {'memset': lambda a, e: seq.append(('memset', [cx.render(x) for x in cx.call_args(e)][:2], a[2] if len(a) > 2 else None)) or absint.TOP,
+                     '__builtin_memset': lambda a, e: seq.append(('memset', [cx.render(x) for x in cx.call_args(e)][:2], a[2] if len(a) > 2 else None)) or absint.TOP,
+                     '__builtin___memset_chk': lambda a, e: seq.append(('memset', [cx.render(x) for x in cx.call_args(e)][:2], a[2] if len(a) > 2 else None)) or absint.TOP,
+                     'convert_from_object': lambda a, e: seq.append(('convert', [cx.render(x) for x in cx.call_args(e)][:1], None)) or absint.TOP}
+            absint.Interp(fg, env, hooks, const_vars=set(env)).run()
+            conv_at = [i for i, x in enumerate(seq) if x[0] == 'convert' and x[1] == ['result']]
+            zero_at = [i for i, x in enumerate(seq) if x[0] == 'memset' and x[1] == ['result', '0'] and isinstance(x[2], absint.Con) and x[2].v >= size]
+            ok = bool(conv_at) and bool(zero_at) and min(zero_at) < min(conv_at)
+            run.ob('K7/aggregate-result-zeroed-before-the-initialiser-is-applied', F, '%s result of %d bytes' % (kind[3:].lower(), size), ok, tu.where(tu.func(F)),
+                   'calls seen: %s -- a partial initialiser ([1] for struct {int a, b, c;}) leaves the other fields as they were in the result buffer' % [(x[0], x[1]) for x in seq])
+
+
 def check(run):
     run.explanation = (
         'Must-pass-through rules on the CFG of the callback trampoline: from the `error:` label every path delivers the '
@@ -298,10 +349,12 @@ def check(run):
     k1(run, tu)
     k2(run, tu)
     k3(run, tu)
+    k7(run, tu)
     n = k4_k5_generated(run, tu, run.tier == 'thorough')
     run.need(n >= 9, 'extern "Python" stubs in the corpus: %d' % n)
     k5_k6(run, tu)
     run.min_instances('K1', 10)
     run.min_instances('K4', 20)
     run.min_instances('K5', 12)
+    run.min_instances('K7', 8)
     run.assume('value exactness of libffi\'s argument decoding and of convert_to_object/convert_from_object is not decided (C03, C18)')
